@@ -32,9 +32,10 @@ pub struct EvaluationDomain<F: Field> {
 }
 
 impl<F: WithSmallOrderMulGroup<3>> EvaluationDomain<F> {
-    /// This constructs a new evaluation domain object based on the provided
-    /// values $j, k$.
-    pub fn new(j: u32, k: u32) -> Self {
+    /// Returns the value `extended_k` of the domain built by [`Self::new`] on
+    /// `j, k`. The domain exists (i.e. [`Self::new`] does not panic) if and
+    /// only if this value is at most `F::S`.
+    pub(crate) fn extended_k_for(j: u32, k: u32) -> u32 {
         // quotient_poly_degree * params.n - 1 is the degree of the quotient polynomial
         let quotient_poly_degree = (j - 1) as u64;
 
@@ -48,6 +49,19 @@ impl<F: WithSmallOrderMulGroup<3>> EvaluationDomain<F> {
         while (1 << extended_k) < (n * quotient_poly_degree) {
             extended_k += 1;
         }
+        extended_k
+    }
+
+    /// This constructs a new evaluation domain object based on the provided
+    /// values $j, k$.
+    pub fn new(j: u32, k: u32) -> Self {
+        // quotient_poly_degree * params.n - 1 is the degree of the quotient polynomial
+        let quotient_poly_degree = (j - 1) as u64;
+
+        // n = 2^k
+        let n = 1u64 << k;
+
+        let extended_k = Self::extended_k_for(j, k);
 
         // ensure extended_k <= S
         assert!(extended_k <= F::S);
